@@ -444,6 +444,24 @@ class ProvWorld:
             names.add(getattr(cl, 'client_name', None))
         return names
 
+    def reboot(self):
+        """the device behind the address reboots: its transaction ids start again; every consumer reacts with the public
+        restart() (stop_all + start_all with the original parameters)"""
+        if self.lock_trace is not None:
+            self._txid_value['v'] = 0
+        else:
+            self.prov._transaction_id = 0
+        info = []
+        for cons in self.consumers:
+            old = cons.operations_manager
+            # the loop-back HTTP server object is shared and survives stop_all: forget the consumer's path as a real server does
+            cons._verif_server.dispatcher._instances.pop(cons.path_prefix, None)
+            cons.restart()
+            info.append({'new_manager': cons.operations_manager is not old,
+                         'buffered': len(cons.operations_manager._last_operation_invoked_reports),
+                         'pending': len(cons.operations_manager._transactions)})
+        return info
+
     # ---- one case of the sequential / burst stream
     def run_case(self, ops):
         ctl = self.ctl
@@ -451,6 +469,7 @@ class ProvWorld:
         first_id = self.current_txid()
         mv0 = self.prov.mdib.mdib_version
         events, resps, versions, pcounts, futs = [], [], [], [], []
+        done_at = {}
         ops = [list(o) for o in ops]
         i = 0
         aborted = None
@@ -508,6 +527,9 @@ class ProvWorld:
                 break
             versions.append(self.prov.mdib.mdib_version)
             pcounts.append(sum(len(r) for r in self.parts_for(0, n_case)) - before)
+            for fidx, _ci, f, _exc in futs:              # at which step was the result handle first seen completed
+                if f is not None and fidx not in done_at and f.done():
+                    done_at[fidx] = len(events) - 1
         # observed handler outcomes replace the plans ('real' handlers)
         for idx, ev in enumerate(events):
             if ev[0] == 'req':
@@ -529,19 +551,23 @@ class ProvWorld:
         ctl.execs.clear()
         return {'first_id': first_id, 'mv0': mv0, 'events': events, 'resps': resps,
                 'reports': parts[0], 'reports_other': parts[1:], 'versions': versions, 'pcounts': pcounts,
-                'futures': fut_obs, 'errors': errors, 'aborted': aborted,
+                'futures': fut_obs, 'done_at': sorted(done_at.items()), 'errors': errors, 'aborted': aborted,
                 'queue_len_end': self.worker._operations_queue.qsize()}
 
 
 def run_prov(cases):
     pw = ProvWorld(n_consumers=2)
     out = []
+    reboots = []
     for ops in cases:
+        if ops == 'reboot':
+            reboots.append({'after_case': len(out), 'consumers': pw.reboot()})
+            continue
         tr = pw.run_case(ops)
         out.append(tr)
         if tr['aborted']:
             break
-    return {'traces': out, 'queue_cap': pw.queue_cap, 'handles': pw.handles}
+    return {'traces': out, 'queue_cap': pw.queue_cap, 'handles': pw.handles, 'reboots': reboots}
 
 
 # ----------------------------------------------------------------------------- concurrent consumers
